@@ -37,7 +37,9 @@ def geom_cases(draw, tier="quick"):
     N = draw(st.sampled_from([1, 2, 3, 5]))
     P = draw(gen.mat(N, pd, -2, 2))          # N parameter vectors
     Fv = draw(gen.mat(N, int(np.prod(fs)), -2, 2))  # N raw function-value vectors
-    return {"geom": spec, "P": P, "F": Fv, "regrid": draw(st.sampled_from([0, 1, 3, 7])), "thin": [draw(st.integers(0, 2)), draw(st.integers(1, 3))]}
+    return {"geom": spec, "P": P, "F": Fv, "regrid": draw(st.sampled_from([0, 1, 3, 7])), "thin": [draw(st.integers(0, 2)), draw(st.integers(1, 3))],
+            # memory layout of the arrays handed to the maps (an image stored in Fortran order, a transposed view, a read-only array ...)
+            "layout": draw(st.sampled_from(["plain", "fortran", "fortran", "strided", "reversed", "readonly"]))}
 
 
 def is_identity_map(spec):
@@ -83,6 +85,16 @@ def run_roundtrip(c, rec):
         return
     p_back = np.asarray(must(lambda: G.fun2par(f), "fun2par"))
     require(p_back.shape == p.shape and close(p_back, p, 1e-9), "fun2par(par2fun(p)) != p", p=p, back=p_back)
+    # the same function values stored in another memory layout are the same function
+    f_l = gen.relayout(f, c.get("layout", "plain"))
+    p_l = np.asarray(must(lambda: G.fun2par(f_l), "fun2par on function values in another memory layout"))
+    require(p_l.shape == p_back.shape and maxdiff(p_l, p_back) <= 1e-12 * (1 + np.max(np.abs(p_back))),
+            f"fun2par depends on the memory layout of the function values ({c.get('layout')})", plain=p_back, other_layout=p_l)
+    f_pl = np.asarray(must(lambda: G.par2fun(gen.relayout(p, c.get("layout", "plain"))), "par2fun on parameters in another memory layout"))
+    require(f_pl.shape == f.shape and maxdiff(f_pl, f) <= 1e-12 * (1 + np.max(np.abs(f))), "par2fun depends on the memory layout of the parameters")
+    if not refused:
+        v_l = np.asarray(must(lambda: G.fun2vec(f_l), "fun2vec on function values in another memory layout"))
+        require(v_l.shape == v.shape and maxdiff(v_l, v) == 0, f"fun2vec depends on the memory layout of the function values ({c.get('layout')})")
     # projection idempotence on arbitrary admissible function values
     g = fun_values(spec, arr(c["F"][0]).reshape(fs))
     Pg = np.asarray(G.par2fun(np.asarray(G.fun2par(g))))
@@ -121,7 +133,7 @@ def run_batch(c, rec):
     P = arr(c["P"]).T  # (par_dim, N)
     cols = [np.asarray(G.par2fun(P[:, i].copy())) for i in range(N)]
     want = np.stack(cols, axis=-1)
-    got = np.asarray(must(lambda: G.par2fun(P.copy()), "par2fun on a batch"))
+    got = np.asarray(must(lambda: G.par2fun(gen.relayout(P, c.get("layout", "plain"))), "par2fun on a batch"))
     require(got.size == want.size and close(got.reshape(want.shape), want, 1e-10),
             "par2fun on a matrix of columns differs from column-by-column application", got=got, want=want)
     if N > 1:
@@ -133,7 +145,7 @@ def run_batch(c, rec):
     Fb = np.stack([fun_values(spec, arr(c["F"][i]).reshape(fs)) for i in range(N)], axis=-1)
     pcols = [np.asarray(G.fun2par(Fb[..., i].copy())) for i in range(N)]
     wantp = np.stack(pcols, axis=-1)
-    gotp = np.asarray(must(lambda: G.fun2par(Fb.copy()), "fun2par on a batch"))
+    gotp = np.asarray(must(lambda: G.fun2par(gen.relayout(Fb, c.get("layout", "plain"))), "fun2par on a batch"))
     require(gotp.size == wantp.size and close(gotp.reshape(wantp.shape), wantp, 1e-10),
             "fun2par on a batch differs from column-by-column application", got=gotp, want=wantp)
     if N > 1:
